@@ -447,6 +447,47 @@ func sectionGiants() {
 	}
 }
 
+// boundaries: exactly 255/256/257 and 65535/65536/65537 distinct cells (ref-index width and
+// the width of the header counters), and cell data of exactly 2^8k-1, 2^8k, 2^8k+1 bytes
+// (offset width; with cache bits the index entries are doubled, so also around 2^8k/2)
+func sectionBoundaries() {
+	for _, n := range []int{1, 2, 3, 254, 255, 256, 257, 258, 65535, 65536, 65537} {
+		root := gen.ExactCells(n)
+		t, err := bridge.ToTongoBuilt(root)
+		if err != nil {
+			R.HarnessError("ExactCells build: %v", err)
+			continue
+		}
+		os := allOpts
+		if n > 1000 {
+			os = []opt{{}, {true, true, true}, {true, false, false}}
+		}
+		serializeAndCheck(fmt.Sprintf("exact-cells/%d", n), t, root, map[string]any{"cells": n}, os)
+	}
+	for _, total := range []int{126, 127, 128, 129, 254, 255, 256, 257, 32766, 32767, 32768, 32769, 65534, 65535, 65536, 65537} {
+		for _, refSize := range []int{1, 2} {
+			root := gen.ExactBytes(total, refSize)
+			if root == nil {
+				continue
+			}
+			n := distinctCells(root)
+			if (refSize == 1) != (n < 256) {
+				continue // the chain's cell count does not give this reference size
+			}
+			t, err := bridge.ToTongoBuilt(root)
+			if err != nil {
+				continue
+			}
+			outs := serializeAndCheck(fmt.Sprintf("exact-bytes/%d", total), t, root, map[string]any{"data_bytes": total, "cells": n}, allOpts)
+			if b := outs[opt{}]; b != nil {
+				if _, _, hdr, err := rboc.Read(b); err == nil && hdr.DataSize != total {
+					R.HarnessError("ExactBytes(%d,%d) produced %d data bytes", total, refSize, hdr.DataSize)
+				}
+			}
+		}
+	}
+}
+
 func main() {
 	tier := "quick"
 	if len(os.Args) > 1 {
@@ -461,6 +502,7 @@ func main() {
 		os.Exit(R.Finish())
 	}
 	sectionInMemory()
+	sectionBoundaries()
 	sectionDepth()
 	sectionForeign()
 	sectionReal()
